@@ -179,12 +179,34 @@ def register(R):
   R.add(Contract(f'{RT}::_ThresholdedConfusionMatrix.recall', P, types=tcm, ret='rreal',
                  ensures=['result == sdiv(self.tp_trues, self.p_trues)'], bounded='bounded_thresholded_retrieval'))
 
+  # ---- signals: flip masks (pointwise) --------------------------------------------------------------------------------------
+  FM = 'ml_metrics/_src/signals/flip_masks.py'
+  fm = dict(base_prediction='rreal', model_prediction='rreal', threshold='rreal')
+  R.add(Contract(f'{FM}::binary_flip_mask', P, variant='threshold', types=fm, ret='int',
+                 ensures=['result == (1 if (base_prediction > threshold) != (model_prediction > threshold) else 0)'], bounded='bounded_signals',
+                 note='1 exactly where the two predictions fall on different sides of the threshold'))
+  R.add(Contract(f'{FM}::neg_to_pos_flip_mask', P, variant='threshold', types=fm, ret='int',
+                 ensures=['result == (1 if base_prediction <= threshold and threshold < model_prediction else 0)'], bounded='bounded_signals'))
+  R.add(Contract(f'{FM}::pos_to_neg_flip_mask', P, variant='threshold', types=fm, ret='int',
+                 ensures=['result == (1 if base_prediction > threshold and threshold >= model_prediction else 0)'], bounded='bounded_signals'))
+  fb = dict(base_prediction='bool', model_prediction='bool', threshold='none')
+  R.add(Contract(f'{FM}::binary_flip_mask', P, variant='labels', types=fb, ret='int',
+                 ensures=['result == (1 if base_prediction != model_prediction else 0)'], bounded='bounded_signals'))
+  R.add(Contract(f'{FM}::neg_to_pos_flip_mask', P, variant='labels', types=fb, ret='bool',
+                 ensures=['truthy(result) == ((not base_prediction) and model_prediction)'], bounded='bounded_signals'))
+  R.add(Contract(f'{FM}::pos_to_neg_flip_mask', P, variant='labels', types=fb, ret='bool',
+                 ensures=['truthy(result) == (base_prediction and not model_prediction)'], bounded='bounded_signals'))
+
   R.bounded_checks[P] = [
       ('bounded_rates', 'every ConfusionMatrixMetric vs independent re-implementation over all counts <= 4 (5 thorough)'),
       ('bounded_classification_api', 'ClassificationAggFn / one-shot functions vs brute force from raw examples (input types x averages)'),
       ('bounded_topk_classification', 'top-k confusion-matrix metrics for k-lists with gaps vs predictions cut at k'),
       ('bounded_thresholded_retrieval', 'ThresholdedRetrieval per-threshold precision/recall/f1 vs counting, negative sentinels, batches, merge'),
       ('bounded_retrieval', 'TopKRetrieval metrics vs per-row textbook definitions on ragged rankings'),
+      ('bounded_one_shot_api', 'every one-shot function of metrics/classification.py and metrics/retrieval.py = the accumulator metric of the same name; documented aliases agree'),
+      ('bounded_signals', 'signals/: flip masks, binary / categorical cross entropy, top-k accuracy vs definitions on small arrays'),
+      ('bounded_histograms', 'Histogram (equal bins, explicit edges, weights), CalibrationHistogram, Counter vs bucket counting from the raw values'),
+      ('bounded_text_frequency', 'PatternFrequency (literal patterns incl. regex metacharacters, overlapping matches) and TopKWordNGrams vs definitions from the raw texts'),
       ('bounded_rolling', 'rolling statistics vs numpy on the whole data, NaN patterns'),
   ]
   R.trusted[P] = ['A1 floats are reals with a non-finite flag', 'A3 pointwise view of numpy elementwise code; np.divide(where=), np.sqrt axioms',
